@@ -4,6 +4,11 @@
 # usage: tools/confirm_mutant.sh <srcdir-with-patch.diff-and-demo.py> <label>
 # writes <srcdir>/confirm.json ; removes the worktree afterwards.
 src="$1"; label="$2"
+# the suite binds fixed tcp ports (5555/5556): run inside a private network namespace when possible, so that several
+# confirmations (and anything else on the machine) cannot disturb each other
+if [ -z "$CM_ISOLATED" ] && unshare -n true 2>/dev/null; then
+  exec env CM_ISOLATED=1 unshare -n bash -c 'ip link set lo up 2>/dev/null; exec "$0" "$@"' "$0" "$@"
+fi
 wt="/tmp/cm_$label"
 git -C /repo worktree remove --force "$wt" >/dev/null 2>&1
 git -C /repo worktree add -q --detach "$wt" HEAD || exit 3
